@@ -344,6 +344,9 @@ def parser_obligations(run: Run, rule: str, src, g, probes=None):
             table['Lexer'] = ev.class_table['Lexer']
             table['AstBuilder'] = {'mro': ['AstBuilder'], 'attrs': dict(ab.attrs), 'methods': {n: m.node for n, m in ab.methods.items()}}
             ev.class_table = table
+            from ..finite import memoizable
+            from .common import exception_bases
+            ev.memo_functions, ev.pure_ids = memoizable(_composite_table(src, g), {'get'}, set(exception_bases(src)), {'subclasses'})
             for m_ in {ab.module.path: ab.module}.values():
                 for st in m_.tree.body:
                     if isinstance(st, ast.FunctionDef):
